@@ -25,17 +25,21 @@ def parse_result(line):
     if line.startswith("X-outer") or line.startswith("bad-") or line.startswith("parse-error"):
         return None
     for part in line.split(";"):
-        m = re.match(r"L(\d+)=(.*?)~(.*?)~(.*)$", part)
+        m = re.match(r"([LPEJ])(\d*)=(.*?)~(.*?)~(.*)$", part)
         if not m:
             return None
-        trace = [t for t in m.group(3).split(",") if t]
+        trace = [t for t in m.group(4).split(",") if t]
         loads = []
-        for l in m.group(4).split(","):
+        for l in m.group(5).split(","):
             if l:
                 a, b = l.split(">")
                 loads.append((int(a[1:]), int(b[1:])))
-        ops.append({"k": int(m.group(1)), "state": m.group(2), "trace": trace, "loads": loads})
+        ops.append({"kind": m.group(1), "k": int(m.group(2) or 0), "state": m.group(3), "trace": trace, "loads": loads})
     return ops
+
+
+def opname(o):
+    return o["kind"] + (str(o["k"]) if o["kind"] != "J" else "")
 
 
 PANIC_TAGS = [
@@ -70,7 +74,7 @@ def canon_result(line):
     ops = parse_result(line)
     if ops is None:
         return line
-    return ";".join("L%d=%s~%s~%s" % (o["k"], canon_state(o["state"]), ",".join(o["trace"]),
+    return ";".join("%s=%s~%s~%s" % (opname(o), canon_state(o["state"]), ",".join(o["trace"]),
                                       ",".join("m%d>m%d" % l for l in o["loads"])) for o in ops)
 
 
@@ -78,7 +82,7 @@ def sorted_loads_result(line):
     ops = parse_result(line)
     if ops is None:
         return line
-    return ";".join("L%d=%s~%s~%s" % (o["k"], canon_state(o["state"]), ",".join(o["trace"]),
+    return ";".join("%s=%s~%s~%s" % (opname(o), canon_state(o["state"]), ",".join(o["trace"]),
                                       ",".join("m%d>m%d" % l for l in sorted(o["loads"]))) for o in ops)
 
 
@@ -99,6 +103,8 @@ def check(case, line):
     ops = parse_result(line)
     if ops is None:
         return [("panic", "harness: " + line[:200])]
+    if any(o["kind"] != "L" for o in ops):
+        return check_split(case, f, ops)
     fails = []
     closure = [f["reach"][m] | {m} for m in range(n)]
     is_let = ["l" in m["flags"] for m in mods]
@@ -230,6 +236,56 @@ def check(case, line):
                 status[m] = exp_state if (src is not None and (m == src or src in f["reach"][m])) else None
         else:
             unknown |= cl
+    return fails
+
+
+def check_split(case, f, ops):
+    """Cases with P/E/J ops (evaluations pending across Evaluate() calls): no panic; every body at most once; deps-first over
+    the whole history; after the last J every evaluation promise is settled (throw-free, link-error-free cases: fulfilled)."""
+    n = f["n"]
+    fails = []
+    closure = [f["reach"][m] | {m} for m in range(n)]
+    started, ended = set(), set()
+    entered, eval_first = set(), []
+    clean = not any(f["throws"]) and not any(f["missing"]) and not any(f["linkerr"])
+    for oi, o in enumerate(ops):
+        if o["state"].startswith("X:"):
+            fails.append(("panic", o["state"][2:160]))
+            break
+        for item in o["trace"]:
+            mm = re.match(r"(start|end):m(\d+):(.*)$", item)
+            if not mm:
+                fails.append(("order", "unparsable trace item " + item))
+                continue
+            what, m = mm.group(1), int(mm.group(2))
+            if what == "start":
+                if m in started:
+                    fails.append(("twice", "m%d starts twice" % m))
+                for r in f["req"][m]:
+                    if m in closure[r]:
+                        continue
+                    for d in closure[r]:
+                        if d not in ended:
+                            fails.append(("deps-first", "m%d starts before its dependency m%d has finished" % (m, d)))
+                            break
+                started.add(m)
+            else:
+                if m not in started or m in ended:
+                    fails.append(("twice", "m%d ends without a start / twice" % m))
+                ended.add(m)
+        if o["kind"] == "E":
+            # Evaluate() on a module that an earlier, still pending evaluation has already entered returns a fresh promise
+            # that the engine never settles (its capability is dropped: recorded deviation of SourceTextModule::evaluate,
+            # modelled in Modules.evaluate); only first entries are held to "settles"
+            eval_first.append(o["k"] not in entered)
+            entered |= closure[o["k"]] if o["k"] < n else set()
+        if o["kind"] == "J" and clean:
+            sts = [x for x in o["state"].split("/") if x]
+            for first, x in zip(eval_first, sts):
+                if first and x != "F":
+                    fails.append(("pending" if x == "P" else "outcome",
+                                  "op %d: evaluation promises after the drain: %s (first entries must be fulfilled)" % (oi, o["state"])))
+                    break
     return fails
 
 
